@@ -93,6 +93,11 @@ type CaseResult struct {
 	Outcomes []Outcome     `json:"outcomes"`
 	Walks    [][]WalkEntry `json:"walks"`    // per module
 	ModOrder []string      `json:"modorder"` // runtime: ioutil.ReadDir order of the module path
+	// per module: a file-based loader exists for it (single: module 0 only; runtime: valid module directories)
+	Loaders []bool `json:"loaders"`
+	// oracle for the model: what the parent of the file-based loaders binds among the names of the case:
+	// lower-cased name -> lower-cased Name() of the bound type
+	Shadow map[string]string `json:"shadow,omitempty"`
 	Crash    string        `json:"crash,omitempty"`
 }
 
